@@ -1,364 +1,792 @@
-"""C02: standard combination = sparse-grid interpolant. Correspondence model <-> StandardCombi/TrapezoidalGrid/Integration."""
+"""C02: standard combination = sparse-grid interpolant. Correspondence model <-> StandardCombi/TrapezoidalGrid/Integration.
+
+A case is a short HISTORY on one or two (StandardCombi, TrapezoidalGrid, Integration) object triples living in one process:
+steps = [(object, lmin, lmax, evaluation points, observation order, ...)]. Every step is compared with the model (a pure
+function of the request) and with the property predicate (oracle) evaluated on the implementation alone."""
 import itertools
+import math
 import random
+import time
 from fractions import Fraction as Fr
 from .. import sx
 from ..impl import run_impl
 from ..model import run_model
+from . import _c02_gen
 
 ASSUMPTIONS = ['exact-arithmetic model (Qc); inputs on dyadic lattices so that the float results are exact or within 1e-11 relative',
                'scipy.interpolate.interpn(method="linear") modelled as dimension-by-dimension piecewise-linear interpolation',
-               'numpy linspace/inner/prod modelled exactly']
+               'numpy linspace/inner/prod modelled exactly',
+               'Function cache (f_dict) size modelled as the number of distinct component-grid points; np.isclose / math.isclose in '
+               'Grid.points_not_zero / level_to_num_points_1d modelled as exact equality (they differ only for boxes whose mesh width '
+               'is below 1e-8 + 1e-5*|bound|: those cases are generated, flagged rtol_collision and reported - known finding)',
+               _c02_gen.ASSUMPTION]
 
 TOL = Fr(1, 10 ** 11)
+TOLF = 1e-11
+NODAL_CAP = 1500            # at most this many sparse-grid points are interpolated per step (all of them below the cap)
 
 
 def dy(rng, lo, hi, bits):
     return Fr(rng.randrange(lo * 2 ** bits, hi * 2 ** bits + 1), 2 ** bits)
 
 
-def gen_case(rng, tier):
-    d = rng.choice([1, 2, 2, 3, 3, 4] if tier == 'quick' else [1, 2, 2, 3, 3, 4, 4])
-    lmin = rng.choice([1, 1, 2, 3]) if d <= 3 else rng.choice([1, 2])
-    span = rng.choice([0, 1, 2, 3]) if d <= 2 else rng.choice([0, 1, 2]) if d == 3 else rng.choice([0, 1, 2])
-    if d == 4 and lmin == 2:
-        span = min(span, 1)
-    lmax = lmin + span
-    a = [dy(rng, -2, 1, 1) for _ in range(d)]
-    b = [a[i] + rng.choice([Fr(1, 2), 1, 1, 2, 3]) for i in range(d)]
-    boundary = rng.random() < 0.5
-    kind = rng.choice([0, 0, 1, 1, 2])
+# ------------------------------------------------------------------------------------------------------------ generator
+def est_points(d, lmin, lmax, boundary):
+    """rough number of component-grid points of one request (cost estimate)"""
+    n = lmax - lmin
+    if n < 0:
+        return 0
+    tot = 0
+    for q in range(min(d, n + 1)):
+        k = n - q
+        # number of level vectors with |l - lmin|_1 = k times the typical grid size 2^(k + d*lmin)
+        tot += math.comb(k + d - 1, d - 1) * 2 ** (k + d * lmin) * (1.3 if boundary else 1.0)
+    return tot
+
+
+def gen_fs(rng, d, lmin, lmax, a, b, boundary):
+    kind = rng.choice([0, 0, 1, 1, 1, 2])
     if kind == 0:
-        fs = [0, [Fr(rng.randrange(-3, 4)) for _ in range(d)], [Fr(rng.randrange(-2, 3)) for _ in range(d)]]
-    elif kind == 1:
+        return [0, [Fr(rng.randrange(-3, 4)) for _ in range(d)], [Fr(rng.randrange(-2, 3)) for _ in range(d)]]
+    if kind == 1:
         # hierarchical hat basis function: odd index on level j >= 1 (or level-lmin nodal hat), level chosen near the index set
-        j = [rng.randrange(1, lmax + 2) for _ in range(d)]
+        j = [rng.randrange(1, max(lmax, 1) + 2) for _ in range(d)]
         i = []
         for jd in j:
             if boundary and rng.random() < 0.15:
                 i.append(rng.choice([0, 2 ** jd]))
+            elif jd <= lmin and rng.random() < 0.3:
+                i.append(rng.randrange(1, 2 ** jd))            # nodal hat of a level <= lmin: any interior index
             else:
                 i.append(rng.randrange(0, 2 ** (jd - 1)) * 2 + 1)
-        fs = [1, j, i]
+        return [1, j, i]
+    # nodal unit function at a point of a random component-like grid
+    lv = [rng.randrange(1, max(lmax, 1) + 1) for _ in range(d)]
+    p = [a[k] + (b[k] - a[k]) * Fr(rng.randrange(0 if boundary else 1, 2 ** lv[k] + (1 if boundary else 0)), 2 ** lv[k]) for k in range(d)]
+    return [2, p]
+
+
+def gen_box(rng, d, far):
+    if far:
+        base = rng.choice([Fr(100), Fr(1000), Fr(-1000), Fr(2 ** 20), Fr(1)])
+        a, b = [], []
+        for _ in range(d):
+            if base == 1:
+                w = Fr(1, 2 ** rng.choice([10, 12]))            # tiny box next to 1: the mesh width drops below 1e-5 * |a|
+                lo = Fr(1)
+            else:
+                w = rng.choice([Fr(1, 2), Fr(1), Fr(4)])
+                lo = base + rng.choice([0, 1, -2])
+            a.append(lo); b.append(lo + w)
+        return a, b
+    a = [dy(rng, -2, 1, 1) for _ in range(d)]
+    b = [a[i] + rng.choice([Fr(1, 2), 1, 1, 2, 3]) for i in range(d)]
+    return a, b
+
+
+def gen_levels(rng, d, boundary, budget):
+    for _ in range(50):
+        r = rng.random()
+        if r < 0.04:
+            lmin = 0
+        elif d <= 3:
+            lmin = rng.choice([1, 1, 2, 3])
+        else:
+            lmin = rng.choice([1, 1, 2])
+        span = rng.choice([0, 1, 2, 3] if d <= 2 else [0, 1, 2])
+        if rng.random() < 0.03:
+            span = -1                                          # lmin > lmax: empty scheme (outside the property; model and code agree)
+        if est_points(d, lmin, lmin + span, boundary) <= budget:
+            return lmin, lmin + span
+    return 1, 1
+
+
+def gen_pts(rng, d, a, b, n):
+    return [[a[k] + (b[k] - a[k]) * Fr(rng.randrange(0, 2 ** 5 + 1), 2 ** 5) for k in range(d)] for _ in range(n)]
+
+
+def gen_step(rng, d, obj, objs, budget, first=None):
+    o = objs[obj]
+    if first is None:
+        lmin, lmax = gen_levels(rng, d, o['boundary'], budget)
     else:
-        # nodal unit function at a point of a random component-like grid
-        lv = [rng.randrange(1, lmax + 1) for _ in range(d)]
-        p = [a[k] + (b[k] - a[k]) * Fr(rng.randrange(0 if boundary else 1, 2 ** lv[k] + (1 if boundary else 0)), 2 ** lv[k]) for k in range(d)]
-        fs = [2, p]
-    npts = 6
-    pts = [[a[k] + (b[k] - a[k]) * Fr(rng.randrange(0, 2 ** 5 + 1), 2 ** 5) for k in range(d)] for _ in range(npts)]
-    # follow-up requests on the SAME StandardCombi object (histories: stale state between requests must not leak)
-    more = []
-    if rng.random() < 0.6:
+        # follow-up request: same / shifted lmin with the same or a neighbouring span (stale schemes, caches keyed by too little)
+        for _ in range(20):
+            sh = rng.choice([-1, 1, 1, 0, 0])
+            lmin = max(0 if first[0] == 0 else 1, first[0] + sh)
+            sp = first[1] - first[0]
+            sp2 = sp if rng.random() < 0.6 else max(0, sp + rng.choice([-1, 1]))
+            lmax = lmin + sp2
+            if est_points(d, lmin, lmax, o['boundary']) <= budget:
+                break
+        else:
+            lmin, lmax = first
+    r = rng.random()
+    npts = 0 if r < 0.04 else 6
+    return dict(obj=obj, lmin=lmin, lmax=lmax, pts=gen_pts(rng, d, o['a'], o['b'], npts), grid_eval=rng.random() < 0.5,
+                want_pw=rng.random() < 0.35, probe_first=rng.random() < 0.5, pts_array=rng.random() < 0.25, np_levels=rng.random() < 0.15)
+
+
+def gen_case(rng, tier):
+    d = rng.choice([1, 2, 2, 2, 3, 3, 3, 4, 4, 5] if tier == 'quick' else [1, 2, 2, 3, 3, 4, 4, 5])
+    far = rng.random() < 0.1
+    if far:
+        d = rng.choice([1, 1, 2])
+    budget = {1: 3000, 2: 2500, 3: 2500, 4: 2500, 5: 1500}[d] * (1 if tier == 'quick' else 3)
+    a, b = gen_box(rng, d, far)
+    boundary = rng.random() < (0.3 if far else 0.5)
+    objs = [dict(a=a, b=b, boundary=boundary, integrator='old' if rng.random() < 0.15 else None, ab_lists=rng.random() < 0.15)]
+    if rng.random() < 0.3:
+        # a second object triple in the same process: other boundary flag on the same box, or another box with the same flag
+        if rng.random() < 0.5:
+            objs.append(dict(a=a, b=b, boundary=not boundary, integrator=None))
+        else:
+            a2, b2 = gen_box(rng, d, False)
+            objs.append(dict(a=a2, b=b2, boundary=boundary, integrator=None))
+    steps = [gen_step(rng, d, 0, objs, budget)]
+    if far and rng.random() < 0.7:
+        # levels at which the mesh width falls below np.isclose's tolerance 1e-8 + 1e-5 * |bound| (known finding when boundary is off)
+        need = min(max(0, math.ceil(math.log2(float(b[k] - a[k]) / (1e-8 + 1e-5 * max(abs(float(a[k])), abs(float(b[k]))))))) for k in range(d))
+        for sp in (rng.choice([0, 1, 2]), 1, 0):
+            lmax = max(need, 1) + rng.choice([0, 0, 1])
+            lmin = max(1, lmax - sp)
+            if est_points(d, lmin, lmax, boundary) <= 2 * budget:
+                steps[0].update(lmin=lmin, lmax=lmax, no_cap=True)
+                break
+    if rng.random() < 0.65:
         for _ in range(rng.choice([1, 1, 2])):
-            sh = rng.choice([-1, 1, 1, 0])
-            l2 = max(1, lmin + sh)
-            sp2 = span if rng.random() < 0.6 else max(0, span + rng.choice([-1, 1]))
-            if d == 4:
-                l2, sp2 = min(l2, 2), min(sp2, 1)
-            if d == 3:
-                sp2 = min(sp2, 2)
-            more.append([l2, l2 + min(sp2, 3)])
-    return dict(d=d, lmin=lmin, lmax=lmax, a=a, b=b, boundary=boundary, fs=fs, pts=pts, grid_eval=rng.random() < 0.5, more=more)
+            obj = rng.randrange(len(objs))
+            steps.append(gen_step(rng, d, obj, objs, budget, first=(steps[0]['lmin'], steps[0]['lmax'])))
+    lmin, lmax = steps[0]['lmin'], steps[0]['lmax']
+    fss = [gen_fs(rng, d, lmin, lmax, a, b, boundary)]
+    if rng.random() < 0.2:
+        fss.append(gen_fs(rng, d, lmin, lmax, a, b, boundary))       # vector-valued function (output_length 2)
+    return dict(d=d, objs=objs, fss=fss, ref=rng.random() < 0.25, steps=steps)
 
 
-def make_function(fs, a, b):
+def big_cases(rng):
+    """sizes beyond typical internal thresholds (64, 200, 1024, 2048): large 1D/2D component grids, many evaluation points"""
+    out = []
+    # 1D, 2^11 + 1 = 2049 points per grid
+    a, b = [Fr(-1)], [Fr(1)]
+    for bd in (True, False):
+        objs = [dict(a=a, b=b, boundary=bd, integrator=None)]
+        st = [dict(obj=0, lmin=10, lmax=11, pts=gen_pts(rng, 1, a, b, 6), grid_eval=False, want_pw=bd, probe_first=False, pts_array=False)]
+        out.append(dict(d=1, objs=objs, fss=[[1, [9], [2 * rng.randrange(0, 2 ** 8) + 1]]], ref=False, steps=st))
+    # 1D, 4097 and 8193 points per grid (beyond 4096)
+    objs = [dict(a=[Fr(0)], b=[Fr(1)], boundary=True, integrator=None)]
+    st = [dict(obj=0, lmin=12, lmax=13, pts=gen_pts(rng, 1, [Fr(0)], [Fr(1)], 6), grid_eval=False, want_pw=False, probe_first=True, pts_array=False)]
+    out.append(dict(d=1, objs=objs, fss=[[0, [Fr(1)], [Fr(-1)]]], ref=True, steps=st))
+    # 2D anisotropic, 33 x 65 = 2145 points in one component grid
+    a, b = [Fr(0), Fr(1, 2)], [Fr(2), Fr(1)]
+    objs = [dict(a=a, b=b, boundary=True, integrator=None)]
+    st = [dict(obj=0, lmin=5, lmax=6, pts=gen_pts(rng, 2, a, b, 6), grid_eval=True, want_pw=False, probe_first=True, pts_array=False)]
+    out.append(dict(d=2, objs=objs, fss=[[0, [Fr(1), Fr(-2)], [Fr(1), Fr(0)]]], ref=False, steps=st))
+    # all binomial coefficients of the closed form occur only for lmax - lmin >= d - 1: d = 4 with three coarser diagonals (q = 0..3)
+    a, b = gen_box(rng, 4, False)
+    objs = [dict(a=a, b=b, boundary=False, integrator=None)]
+    st = [dict(obj=0, lmin=1, lmax=4, pts=gen_pts(rng, 4, a, b, 6), grid_eval=False, want_pw=False, probe_first=False, pts_array=False)]
+    out.append(dict(d=4, objs=objs, fss=[[1, [2, 1, 2, 1], [1, 1, 3, 1]]], ref=False, steps=st))
+    # many evaluation points (not a multiple of any power of two or of 100), two requests on one object
+    for d, (l0, l1) in ((2, (1, 3)), (3, (1, 2))):
+        a, b = gen_box(rng, d, False)
+        bd = rng.random() < 0.5
+        objs = [dict(a=a, b=b, boundary=bd, integrator=None)]
+        st = [dict(obj=0, lmin=l0, lmax=l1, pts=gen_pts(rng, d, a, b, 1031), grid_eval=False, want_pw=False, probe_first=False, pts_array=True),
+              dict(obj=0, lmin=l0 + 1, lmax=l1 + 1, pts=gen_pts(rng, d, a, b, 205), grid_eval=False, want_pw=False, probe_first=True, pts_array=False)]
+        out.append(dict(d=d, objs=objs, fss=[gen_fs(rng, d, l0, l1, a, b, bd)], ref=False, steps=st))
+    return out
+
+
+# ------------------------------------------------------------------------------------------------------- implementation
+def make_function(fss, a, b):
     import numpy as np
     from sparseSpACE.Function import Function
+    fa = [float(x) for x in a]; fb = [float(x) for x in b]
+
+    def one(fs, x):
+        if fs[0] == 0:
+            s = 0.0
+            p = 1.0
+            for k in range(len(x)):
+                s += float(fs[1][k]) * x[k] * x[k]
+                p *= (float(fs[2][k]) + x[k])
+            return s + p
+        if fs[0] == 1:
+            v = 1.0
+            for k in range(len(x)):
+                h = (fb[k] - fa[k]) / 2 ** fs[1][k]
+                c = fa[k] + fs[2][k] * h
+                t = abs(x[k] - c) / h
+                v *= (1 - t) if t <= 1 else 0.0
+            return v
+        return 1.0 if all(float(fs[1][k]) == x[k] for k in range(len(x))) else 0.0
 
     class F(Function):
         def output_length(self):
-            return 1
+            return len(fss)
 
         def eval(self, x):
-            if fs[0] == 0:
-                s = 0.0
-                p = 1.0
-                for k in range(len(x)):
-                    s += float(fs[1][k]) * x[k] * x[k]
-                    p *= (float(fs[2][k]) + x[k])
-                return s + p
-            if fs[0] == 1:
-                v = 1.0
-                for k in range(len(x)):
-                    h = float(b[k] - a[k]) / 2 ** fs[1][k]
-                    c = float(a[k]) + fs[2][k] * h
-                    t = abs(x[k] - c) / h
-                    v *= (1 - t) if t <= 1 else 0.0
-                return v
-            return 1.0 if all(float(fs[1][k]) == x[k] for k in range(len(x))) else 0.0
+            if len(fss) == 1:
+                return one(fss[0], x)
+            return np.array([one(fs, x) for fs in fss])
+
+        def comps(self, x):
+            return [one(fs, x) for fs in fss]
     return F()
 
 
+def ref_solution(c):
+    return [float(3 + k) / 4 for k in range(len(c['fss']))]
+
+
 def impl_run(c):
+    """runs the whole history; returns one result dict per step (floats, converted to exact rationals by the caller)"""
     import numpy as np
     from sparseSpACE.StandardCombi import StandardCombi
     from sparseSpACE.Grid import TrapezoidalGrid
     from sparseSpACE.GridOperation import Integration
-    a = np.array([float(x) for x in c['a']]); b = np.array([float(x) for x in c['b']])
-    f = make_function(c['fs'], c['a'], c['b'])
-    grid = TrapezoidalGrid(a=a, b=b, boundary=c['boundary'])
-    op = Integration(f=f, grid=grid, dim=c['d'])
-    sc = StandardCombi(a, b, operation=op, print_output=False)
+    trip = []
+    for o in c['objs']:
+        a = [float(x) for x in o['a']]; b = [float(x) for x in o['b']]
+        if not o.get('ab_lists'):
+            a = np.array(a); b = np.array(b)
+        f = make_function(c['fss'], o['a'], o['b'])
+        grid = TrapezoidalGrid(a=a, b=b, boundary=o['boundary'], integrator=o.get('integrator'))
+        ref = np.array(ref_solution(c)) if c.get('ref') else None
+        op = Integration(f=f, grid=grid, dim=c['d'], reference_solution=ref)
+        trip.append((StandardCombi(a, b, operation=op, print_output=False), grid, f))
     out = []
-    for (lmin, lmax) in [(c['lmin'], c['lmax'])] + [tuple(x) for x in c.get('more', [])]:
-        out.append(impl_request(c, sc, grid, f, lmin, lmax))
+    for st in c['steps']:
+        sc, grid, f = trip[st['obj']]
+        out.append(impl_request(c, st, sc, grid, f))
     return out
 
 
-def impl_request(c, sc, grid, f, lmin, lmax):
+def _f(x):
+    return float(x)
+
+
+def impl_request(c, st, sc, grid, f):
     import numpy as np
-    scheme, err, result = sc.perform_operation(lmin, lmax)
-    sch = [[[int(x) for x in g.levelvector], sx.rat(g.coefficient)] for g in scheme]
-    comps = []
-    for g in scheme:
-        npnts = [int(x) for x in grid.levelToNumPoints(g.levelvector)]
-        num = int(sc.get_num_points_component_grid(g.levelvector, False))
-        pts, w = sc.get_points_and_weights_component_grid(g.levelvector)
-        comps.append([npnts, num, [[sx.rat(x) for x in p] for p in pts], [sx.rat(x) for x in w]])
-    pts = [tuple(float(x) for x in p) for p in c['pts']]
-    vals = [sx.rat(v[0]) for v in sc(pts)]
+    nout = len(c['fss'])
+    if st.get('np_levels'):
+        scheme, err, result = sc.perform_operation(np.int64(st['lmin']), np.int64(st['lmax']))
+    else:
+        scheme, err, result = sc.perform_operation(st['lmin'], st['lmax'])
+    total_points = int(sc.get_total_num_points())
+    sch = [[[int(x) for x in g.levelvector], _f(g.coefficient)] for g in scheme]
+
+    attrs = {}
+
+    def probe():
+        comps = []
+        for g in scheme:
+            npnts = [int(x) for x in grid.levelToNumPoints(g.levelvector)]
+            num = int(sc.get_num_points_component_grid(g.levelvector, False))
+            only_pts = [tuple(_f(x) for x in p) for p in sc.get_points_component_grid(g.levelvector)]
+            pts, w = sc.get_points_and_weights_component_grid(g.levelvector)
+            comps.append([npnts, num, [tuple(_f(x) for x in p) for p in pts], [_f(x) for x in w], only_pts])
+            # the state Grid1d.set_current_area left in the 1D grid objects (parameters of the source-derived model)
+            for k, g1 in enumerate(grid.grids):
+                key = '%d:%d' % (k, int(g.levelvector[k]))
+                if key not in attrs and len(attrs) < 24:
+                    attrs[key] = [int(g1.num_points), int(g1.num_points_with_boundary), int(g1.lowerBorder), int(g1.upperBorder),
+                                  None if g1.spacing is None else _f(g1.spacing), [_f(x) for x in g1.coords], [_f(x) for x in g1.weights],
+                                  int(g1.level_to_num_points_1d(int(g.levelvector[k])))]
+        return comps
+    comps = probe() if st['probe_first'] else None
+    pts = [tuple(float(x) for x in p) for p in st['pts']]
+    req = np.array(pts).reshape((len(pts), c['d'])) if st.get('pts_array') else pts
+    vals = [[_f(x) for x in v] for v in sc(req)]
+    if comps is None:
+        comps = probe()
     # all sparse grid points: interpolation must reproduce f there (oracle)
-    allp = sorted(set(tuple(p) for comp in comps for p in map(tuple, comp[2])))
-    nodal = None
+    allp = sorted(set(p for comp in comps for p in comp[2]))
+    nodal_all = len(allp)
+    if len(allp) > NODAL_CAP and not st.get('no_cap'):
+        stride = len(allp) // NODAL_CAP + 1
+        allp = allp[::stride] + allp[-3:]
+    nodal = []
     if allp:
-        iv = sc([tuple(float(x) for x in p) for p in allp])
-        fv = [f.eval(tuple(float(x) for x in p)) for p in allp]
-        nodal = [[list(p), sx.rat(i[0]), sx.rat(v)] for p, i, v in zip(allp, iv, fv)]
+        iv = sc(allp)
+        nodal = [[p, [_f(x) for x in i], [float(x) for x in f.comps(p)]] for p, i in zip(allp, iv)]
     # tensor-grid request must agree with point-wise request
     gridvals = None
-    if c['grid_eval']:
-        coords = [sorted(set(float(p[k]) for p in c['pts'])) for k in range(c['d'])]
+    if st['grid_eval'] and pts:
+        coords = [sorted(set(p[k] for p in pts)) for k in range(c['d'])]
         gv = sc.interpolate_grid(coords)
         pv = sc(list(itertools.product(*coords)))
-        gridvals = [[sx.rat(x[0]) for x in gv], [sx.rat(x[0]) for x in pv]]
+        gridvals = [[[_f(y) for y in x] for x in gv], [[_f(y) for y in x] for x in pv]]
     pw_pts, pw_w = sc.get_points_and_weights()
-    pw = sum(float(w) * f.eval(tuple(p)) for p, w in zip(pw_pts, pw_w))
-    return dict(scheme=sch, comps=comps, vals=vals, integral=sx.rat(result[0]), nodal=nodal, gridvals=gridvals,
-                pw_integral=sx.rat(pw), total_points=int(sc.get_total_num_points()))
+    pw_len = [len(pw_pts), len(pw_w)]
+    pw_int = [0.0] * nout
+    pw_abs = 0.0
+    for p, w in zip(pw_pts, pw_w):
+        fv = f.comps(tuple(p))
+        for k in range(nout):
+            pw_int[k] += float(w) * fv[k]
+            pw_abs += abs(float(w) * fv[k])
+    pw = [[tuple(_f(x) for x in p), _f(w)] for p, w in zip(pw_pts, pw_w)] if st['want_pw'] else None
+    try:
+        sc.check_combi_scheme()
+        selfcheck = None
+    except BaseException as e:
+        selfcheck = type(e).__name__
+    return dict(scheme=sch, comps=comps, vals=vals, integral=[_f(x) for x in np.atleast_1d(result)], nodal=nodal, nodal_all=nodal_all,
+                gridvals=gridvals, pw_integral=pw_int, pw_abs=pw_abs, pw_len=pw_len, pw=pw, total_points=total_points, selfcheck=selfcheck, attrs=attrs,
+                err=None if err is None else _f(err))
 
 
-def close(x, y, scale=1):
-    return abs(x - y) <= TOL * (abs(x) + abs(y) + scale)
+# --------------------------------------------------------------------------------------------------------------- oracle
+def closef(x, y, scale=1.0):
+    return abs(x - y) <= TOLF * (abs(x) + abs(y) + scale)
 
 
-def hat_integral(c):
-    """analytic integral / exactness expectation for a hierarchical hat function given as fs = [1, j, i]"""
+def hat_integral(o, fs):
+    """analytic integral of a hierarchical hat function given as fs = [1, j, i]"""
     v = Fr(1)
-    for k in range(c['d']):
-        h = (c['b'][k] - c['a'][k]) / 2 ** c['fs'][1][k]
-        v *= h / 2 if c['fs'][2][k] in (0, 2 ** c['fs'][1][k]) else h
+    for k in range(len(o['a'])):
+        h = (o['b'][k] - o['a'][k]) / 2 ** fs[1][k]
+        v *= h / 2 if fs[2][k] in (0, 2 ** fs[1][k]) else h
     return v
 
 
-def in_index_set(c, j):
+def in_index_set(st, d, j):
     # index set of the truncated standard scheme: l >= lmin, sum(l - lmin) <= lmax - lmin ; a hat of level j_d < lmin lives on level lmin
-    eff = [max(x, c['lmin']) for x in j]
-    return sum(x - c['lmin'] for x in eff) <= c['lmax'] - c['lmin']
+    eff = [max(x, st['lmin']) for x in j]
+    return sum(x - st['lmin'] for x in eff) <= st['lmax'] - st['lmin']
 
 
-def oracle(c, r):
-    """Property predicate on the implementation alone."""
-    # union of component points = sparse grid; coefficient sum 1 at each point; num points consistent
-    coef = {}
-    for (lv, cf), comp in zip(r['scheme'], r['comps']):
-        npnts, num, pts, w = comp
-        if num != len(pts):
-            return 'component grid %s announces %d points but returns %d' % (lv, num, len(pts))
-        if len(pts) != len(w):
-            return 'component grid %s: %d points but %d weights' % (lv, len(pts), len(w))
-        for p in set(map(tuple, pts)):
-            coef[p] = coef.get(p, 0) + cf
-    for p, s in coef.items():
-        if s != 1:
-            return 'sparse grid point %s has component-grid coefficients summing to %s' % ([str(x) for x in p], s)
-    if r['nodal']:
-        for p, iv, fv in r['nodal']:
-            if not close(iv, fv):
-                return 'combined interpolant at sparse grid point %s is %s, function value %s' % ([str(x) for x in p], float(iv), float(fv))
-    if r['gridvals'] and any(not close(x, y) for x, y in zip(*r['gridvals'])):
-        return 'interpolate_grid differs from point-wise interpolation'
-    if c['fs'][0] == 1:
-        j, i = c['fs'][1], c['fs'][2]
-        bnd = any(i[k] in (0, 2 ** j[k]) for k in range(c['d']))
-        hierarchical = all((i[k] % 2 == 1) or j[k] <= c['lmin'] for k in range(c['d']))
-        if hierarchical and in_index_set(c, j) and (c['boundary'] or not bnd):
-            want = hat_integral(c)
-            if not close(r['integral'], want):
-                return 'hierarchical hat (level %s index %s) inside the index set integrated to %s, exact %s' % (j, i, float(r['integral']), float(want))
-            f = make_function(c['fs'], c['a'], c['b'])
-            for p, v in zip(c['pts'], r['vals']):
-                fv = sx.rat(f.eval(tuple(float(x) for x in p)))
-                if not close(v, fv):
-                    return 'hierarchical hat inside the index set not reproduced at %s: %s vs %s' % ([str(x) for x in p], float(v), float(fv))
-    return None
+def rtol_collision(o, st):
+    """np.isclose(points, a) / (points, b) in Grid.points_not_zero flags an INTERIOR node when the mesh width of the finest level
+    is below atol + rtol * |bound| (numpy defaults 1e-8, 1e-5)"""
+    for k in range(len(o['a'])):
+        h = float(o['b'][k] - o['a'][k]) / 2 ** max(st['lmax'], 0)
+        if h <= 1e-8 + 1e-5 * abs(float(o['a'][k])) or h <= 1e-8 + 1e-5 * abs(float(o['b'][k])):
+            return True
+    return False
 
 
-def sparse_grid_points(c):
+def sparse_grid_points(o, st):
     """the sparse grid of the requested index set {l >= lmin, |l - lmin|_1 <= lmax - lmin}, from the property statement"""
-    d, lmin, n = c['d'], c['lmin'], c['lmax'] - c['lmin']
+    d, lmin, n = len(o['a']), st['lmin'], st['lmax'] - st['lmin']
     pts = set()
-    for lv in itertools.product(range(lmin, c['lmax'] + 1), repeat=d):
+    if n < 0:
+        return pts
+    fa = [float(x) for x in o['a']]; fw = [float(x) for x in (o['b'][k] - o['a'][k] for k in range(d))]
+    axes_cache = {}
+    for lv in itertools.product(range(lmin, st['lmax'] + 1), repeat=d):
         if sum(x - lmin for x in lv) != n:
             continue
         axes = []
         for k in range(d):
-            rng_i = range(0, 2 ** lv[k] + 1) if c['boundary'] else range(1, 2 ** lv[k])
-            axes.append([c['a'][k] + (c['b'][k] - c['a'][k]) * Fr(i, 2 ** lv[k]) for i in rng_i])
+            if (k, lv[k]) not in axes_cache:
+                rng_i = range(0, 2 ** lv[k] + 1) if o['boundary'] else range(1, 2 ** lv[k])
+                # a_k + (b_k - a_k) * i / 2^l is exact in binary64 for the dyadic boxes generated here
+                axes_cache[(k, lv[k])] = [fa[k] + fw[k] * i / 2 ** lv[k] for i in rng_i]
+            axes.append(axes_cache[(k, lv[k])])
         pts.update(itertools.product(*axes))
     return pts
 
 
-def oracle_union(c, r):
-    got = set(tuple(p) for comp in r['comps'] for p in map(tuple, comp[2]))
-    want = sparse_grid_points(c)
-    if got != want:
-        return 'union of the component-grid points (%d points) is not the sparse grid of the requested lmin=%d lmax=%d (%d points)' % (
-            len(got), c['lmin'], c['lmax'], len(want))
+def oracle(c, st, r):
+    """Property predicate on the implementation alone. Returns (clause, message) or None."""
+    o = c['objs'][st['obj']]
+    d = c['d']
+    nout = len(c['fss'])
+    # the reported number of points of each component grid matches the points it returns; points and weights aligned
+    coef = {}
+    for (lv, cf), comp in zip(r['scheme'], r['comps']):
+        npnts, num, pts, w, only_pts = comp
+        if num != len(pts) or num != len(only_pts):
+            return 'numpoints', 'component grid %s announces %d points but returns %d (get_points_component_grid: %d)' % (lv, num, len(pts), len(only_pts))
+        if len(pts) != len(w):
+            return 'numpoints', 'component grid %s: %d points but %d weights' % (lv, len(pts), len(w))
+        if len(set(pts)) != len(pts):
+            return 'numpoints', 'component grid %s returns duplicate points' % (lv,)
+        if sorted(pts) != sorted(only_pts):
+            return 'numpoints', 'component grid %s: get_points_component_grid differs from get_points_and_weights_component_grid' % (lv,)
+        for p in pts:
+            coef[p] = coef.get(p, 0) + cf
+    # every point of the union has component-grid coefficients summing to 1
+    for p, s in coef.items():
+        if s != 1:
+            return 'coeffsum', 'sparse grid point %s has component-grid coefficients summing to %s' % (list(p), s)
+    # the union of the component grids is exactly the sparse grid of the REQUESTED levels
+    want = sparse_grid_points(o, st)
+    if set(coef) != want:
+        return 'union', 'union of the component-grid points (%d points) is not the sparse grid of the requested lmin=%d lmax=%d (%d points)' % (
+            len(coef), st['lmin'], st['lmax'], len(want))
+    if r['total_points'] != len(coef):
+        return 'total-points', 'get_total_num_points reports %d, the component grids hold %d distinct points' % (r['total_points'], len(coef))
+    if r['selfcheck']:
+        return 'selfcheck', 'StandardCombi.check_combi_scheme raised %s' % r['selfcheck']
+    # nodal exactness: an arbitrary function is reproduced at every point of the sparse grid
+    for p, iv, fv in r['nodal']:
+        for k in range(nout):
+            if not closef(iv[k], fv[k]):
+                return 'nodal', 'combined interpolant (output %d) at sparse grid point %s is %r, function value %r' % (k, list(p), iv[k], fv[k])
+    if r['gridvals'] and any(not closef(x, y) for xs, ys in zip(*r['gridvals']) for x, y in zip(xs, ys)):
+        return 'gridvals', 'interpolate_grid differs from point-wise interpolation'
+    # the point/weight list of the whole combination carries the combined quadrature
+    if r['pw_len'][0] != r['pw_len'][1]:
+        return 'points-weights', 'get_points_and_weights returns %d points and %d weights' % tuple(r['pw_len'])
+    for k in range(nout):
+        if not closef(r['pw_integral'][k], r['integral'][k], scale=r['pw_abs']):
+            return 'points-weights', 'sum of weight*f over get_points_and_weights is %r, perform_operation returned %r' % (r['pw_integral'][k], r['integral'][k])
+    if c.get('ref') and r['err'] is not None:
+        ref = ref_solution(c)
+        want_err = math.sqrt(sum((r['integral'][k] - ref[k]) ** 2 for k in range(nout)))
+        if not closef(r['err'], want_err):
+            return 'ref-error', 'perform_operation reports the error %r, |result - reference|_2 = %r' % (r['err'], want_err)
+    if c.get('ref') and r['err'] is None:
+        return 'ref-error', 'perform_operation reports no error although a reference solution was given'
+    # exactness on the sparse-grid space: hierarchical hats inside the index set are interpolated (everywhere) and integrated exactly
+    f = None
+    for k, fs in enumerate(c['fss']):
+        if fs[0] != 1 or st['lmax'] < st['lmin']:
+            continue
+        j, i = fs[1], fs[2]
+        bnd = any(i[q] in (0, 2 ** j[q]) for q in range(d))
+        hierarchical = all((i[q] % 2 == 1) or j[q] <= st['lmin'] for q in range(d))
+        if hierarchical and in_index_set(st, d, j) and (o['boundary'] or not bnd):
+            want_i = float(hat_integral(o, fs))
+            if not closef(r['integral'][k], want_i, scale=0.0):
+                return 'hier-integral', 'hierarchical hat (level %s index %s) inside the index set integrated to %r, exact %r' % (j, i, r['integral'][k], want_i)
+            f = f or make_function(c['fss'], o['a'], o['b'])
+            for p, v in zip(st['pts'], r['vals']):
+                fv = f.comps(tuple(float(x) for x in p))[k]
+                if not closef(v[k], fv):
+                    return 'hier-interp', 'hierarchical hat inside the index set not reproduced at %s: %r vs %r' % ([str(x) for x in p], v[k], fv)
     return None
 
 
-def compare(c, r, m):
+# ----------------------------------------------------------------------------------------------------------- comparison
+def qf(x):
+    """model rational (num den) -> float when exactly representable, else Fraction"""
+    n, dd = x
+    if dd & (dd - 1) == 0 and abs(n).bit_length() <= 53:
+        return n / dd
+    return Fr(n, dd)
+
+
+def close(x, y, scale=1):
+    if isinstance(x, float) and isinstance(y, float):
+        return abs(x - y) <= TOLF * (abs(x) + abs(y) + scale)
+    x, y = Fr(x), Fr(y)
+    return abs(x - y) <= TOL * (abs(x) + abs(y) + scale)
+
+
+def compare(c, st, r, m):
     """model vs implementation; returns list of differing observables"""
     diffs = []
-    flag, msch, mcomps, mvals, mint = m
-    msch_c = sorted([[lv, sx.rat(cf)] for lv, cf in msch])
-    if msch_c != sorted(r['scheme']):
-        diffs.append('scheme')
-        return diffs
+    flag, msch, mcomps, mvals, mints, mtotal, mpw = m
+    if sorted([[lv, float(cf)] for lv, cf in msch]) != sorted(r['scheme']):
+        return ['scheme']
     order = {tuple(lv): k for k, (lv, cf) in enumerate(msch)}
     for (lv, cf), comp in zip(r['scheme'], r['comps']):
         mc = mcomps[order[tuple(lv)]]
-        npnts, num, pts, w = comp
+        npnts, num, pts, w, only_pts = comp
         if mc[0] != npnts:
             diffs.append('levelToNumPoints')
-        mp = [[sx.q(x) for x in p] for p in mc[1]]
-        mw = [sx.q(x) for x in mc[2]]
-        if sorted(map(tuple, mp)) != sorted(map(tuple, pts)):
+        mp = [tuple(qf(x) for x in p) for p in mc[1]]
+        mw = [qf(x) for x in mc[2]]
+        if sorted(mp) != sorted(pts):
             diffs.append('component points')
-        elif sorted(zip(map(tuple, mp), mw)) != sorted(zip(map(tuple, pts), w)):
-            if any(not close(x[1], y[1]) for x, y in zip(sorted(zip(map(tuple, mp), mw)), sorted(zip(map(tuple, pts), w)))):
+        else:
+            sm, si = sorted(zip(mp, mw)), sorted(zip(pts, w))
+            if sm != si and any(not close(x[1], y[1], 0) for x, y in zip(sm, si)):
                 diffs.append('component weights')
-    if any(not close(sx.q(x), y) for x, y in zip(mvals, r['vals'])) or len(mvals) != len(r['vals']):
+    if len(mvals) != len(c['fss']) or any(len(mv) != len(r['vals']) for mv in mvals):
         diffs.append('interpolated values')
-    if not close(sx.q(mint), r['integral']):
+    elif any(not close(qf(x), v[k]) for k, mv in enumerate(mvals) for x, v in zip(mv, r['vals'])):
+        diffs.append('interpolated values')
+    if any(not close(qf(x), y) for x, y in zip(mints, r['integral'])) or len(mints) != len(r['integral']):
         diffs.append('integral')
+    if mtotal != r['total_points']:
+        diffs.append('total number of points')
+    if st['want_pw'] and r['pw'] is not None:
+        mm = sorted((tuple(qf(x) for x in p), qf(w)) for p, w in mpw)
+        ii = sorted((p, w) for p, w in r['pw'])
+        if [p for p, _ in mm] != [p for p, _ in ii] or any(not close(x[1], y[1], 0) for x, y in zip(mm, ii)):
+            diffs.append('points and weights of the combination')
     return sorted(set(diffs))
 
 
-def to_model(c):
-    return (0, [1 if c['boundary'] else 0, c['a'], c['b'], c['lmin'], c['lmax'], c['fs'], c['pts']])
-
-
-def requests(c):
-    """the single-request views of a history case"""
-    return [dict(c, more=[])] + [dict(c, lmin=x[0], lmax=x[1], more=[]) for x in c.get('more', [])]
+def to_model(c, st):
+    o = c['objs'][st['obj']]
+    return (1, [1 if o['boundary'] else 0, o['a'], o['b'], st['lmin'], st['lmax'], c['fss'], st['pts'], 1 if st['want_pw'] else 0])
 
 
 CORPUS = [
-    dict(d=2, lmin=1, lmax=3, a=[Fr(0), Fr(0)], b=[Fr(1), Fr(1)], boundary=True, fs=[0, [Fr(1), Fr(-2)], [Fr(1), Fr(2)]],
-         pts=[[Fr(1, 4), Fr(3, 8)], [Fr(1), Fr(0)], [Fr(5, 32), Fr(1, 2)]], grid_eval=True),
-    dict(d=3, lmin=1, lmax=2, a=[Fr(-1), Fr(0), Fr(0)], b=[Fr(1), Fr(1), Fr(2)], boundary=False, fs=[1, [2, 1, 1], [1, 1, 1]],
-         pts=[[Fr(-1, 2), Fr(1, 2), Fr(1)], [Fr(0), Fr(1, 4), Fr(1, 2)]], grid_eval=False),
-    dict(d=1, lmin=2, lmax=4, a=[Fr(0)], b=[Fr(2)], boundary=False, fs=[2, [Fr(1, 2)]], pts=[[Fr(1, 2)], [Fr(9, 16)]], grid_eval=True),
+    dict(d=2, objs=[dict(a=[Fr(0), Fr(0)], b=[Fr(1), Fr(1)], boundary=True, integrator=None)], fss=[[0, [Fr(1), Fr(-2)], [Fr(1), Fr(2)]]], ref=False,
+         steps=[dict(obj=0, lmin=1, lmax=3, pts=[[Fr(1, 4), Fr(3, 8)], [Fr(1), Fr(0)], [Fr(5, 32), Fr(1, 2)]], grid_eval=True, want_pw=True,
+                     probe_first=False, pts_array=False)]),
+    dict(d=3, objs=[dict(a=[Fr(-1), Fr(0), Fr(0)], b=[Fr(1), Fr(1), Fr(2)], boundary=False, integrator=None)], fss=[[1, [2, 1, 1], [1, 1, 1]]], ref=False,
+         steps=[dict(obj=0, lmin=1, lmax=2, pts=[[Fr(-1, 2), Fr(1, 2), Fr(1)], [Fr(0), Fr(1, 4), Fr(1, 2)]], grid_eval=False, want_pw=False,
+                     probe_first=True, pts_array=False)]),
+    dict(d=1, objs=[dict(a=[Fr(0)], b=[Fr(2)], boundary=False, integrator=None)], fss=[[2, [Fr(1, 2)]]], ref=False,
+         steps=[dict(obj=0, lmin=2, lmax=4, pts=[[Fr(1, 2)], [Fr(9, 16)]], grid_eval=True, want_pw=True, probe_first=False, pts_array=False)]),
+    # seeded change C02 (scheme cached by lmax - lmin): (1,3) then (2,4) on one object
+    dict(d=2, objs=[dict(a=[Fr(0), Fr(0)], b=[Fr(1), Fr(2)], boundary=True, integrator=None)], fss=[[1, [2, 3], [1, 3]]], ref=False,
+         steps=[dict(obj=0, lmin=1, lmax=3, pts=[[Fr(1, 4), Fr(3, 8)]], grid_eval=False, want_pw=False, probe_first=False, pts_array=False),
+                dict(obj=0, lmin=2, lmax=4, pts=[[Fr(1, 4), Fr(3, 8)]], grid_eval=False, want_pw=False, probe_first=False, pts_array=False)]),
+    # seeded change C02r2 (boundary test ignoring the dimension): interior node 1 of dimension 0 equals the upper bound of dimension 1
+    dict(d=2, objs=[dict(a=[Fr(0), Fr(0)], b=[Fr(2), Fr(1)], boundary=False, integrator=None)], fss=[[0, [Fr(1), Fr(1)], [Fr(1), Fr(1)]]], ref=False,
+         steps=[dict(obj=0, lmin=1, lmax=2, pts=[[Fr(1), Fr(1, 2)], [Fr(3, 4), Fr(1, 4)]], grid_eval=True, want_pw=False, probe_first=False, pts_array=False)]),
+    # known finding C02-isclose-far-box (exemplar): box far from the origin, boundary points off: the mesh width 1/128 is below
+    # np.isclose's tolerance 1e-8 + 1e-5 * 1000, the interior nodes next to the boundary are treated as boundary nodes (value 0)
+    dict(d=1, objs=[dict(a=[Fr(1000)], b=[Fr(1001)], boundary=False, integrator=None)], fss=[[0, [Fr(0)], [Fr(1)]]], ref=False,
+         steps=[dict(obj=0, lmin=7, lmax=7, pts=[[Fr(1000) + Fr(1, 128)], [Fr(2001, 2)]], grid_eval=False, want_pw=False, probe_first=False,
+                     pts_array=False, no_cap=True)]),
 ]
 
 
+def sig_of(c, k, clause=None):
+    st = c['steps'][k]
+    o = c['objs'][st['obj']]
+    s = dict(boundary=o['boundary'], rtol_collision=rtol_collision(o, st), history=k > 0, objects=len(c['objs']))
+    if clause:
+        s['clause'] = clause
+    return s
+
+
 def run(chk):
-    chk.coq_obligations()
-    n = chk.n(150, 3000)
-    cases = CORPUS + [gen_case(chk.rng, chk.tier) for _ in range(n)]
+    t0 = time.time()
+    # source-derived model: regenerate coq/Gen/TrapGrid1DGen.v from the working tree BEFORE the obligations are built, so that the
+    # C02_gen_* theorems (Props/C02gen.v) are re-checked against TrapezoidalGrid1D as it is now
+    gen_info = _c02_gen.regenerate(chk)
+    chk.coq_obligations(extra_props=_c02_gen.EXTRA_PROPS)
+    gen_problem = _c02_gen.diagnose(chk, gen_info)
+    t1 = time.time()
+    n = chk.n(100, 2500)
+    cases = CORPUS + big_cases(random.Random(chk.seed + 1)) + [gen_case(chk.rng, chk.tier) for _ in range(n)]
     impl = run_impl(impl_run, cases, limit=300)
-    flat = [(ci, k, cr) for ci, c in enumerate(cases) for k, cr in enumerate(requests(c))]
-    mres = run_model(2, [to_model(cr) for _, _, cr in flat], nproc=16)
+    t2 = time.time()
+    flat = [(ci, k) for ci, c in enumerate(cases) for k in range(len(c['steps']))]
+    mres = run_model(2, [to_model(cases[ci], cases[ci]['steps'][k]) for ci, k in flat], nproc=8)
+    # 1D grid objects: the attribute values Grid1d.set_current_area stored, against Model/TrapGrid1DArea.v + grid1 / weights1
+    areq = {}
+    for ci, k in flat:
+        status, rr = impl[ci]
+        if status != 'ok':
+            continue
+        st = cases[ci]['steps'][k]
+        o = cases[ci]['objs'][st['obj']]
+        for key in rr[k]['attrs']:
+            dim, lev = map(int, key.split(':'))
+            areq.setdefault((o['boundary'], o['a'][dim], o['b'][dim], lev), None)
+    akeys = list(areq)
+    for key, mr in zip(akeys, run_model(2, [(2, [1 if bd else 0, a, b, lev]) for bd, a, b, lev in akeys], nproc=4)):
+        areq[key] = mr
+    # the tolerant boundary test of the code (Model/StdCombiTol.v), on the steps where it can differ from exact equality
+    tolreq = [(ci, k) for ci, k in flat if impl[ci][0] == 'ok' and not cases[ci]['objs'][cases[ci]['steps'][k]['obj']]['boundary']
+              and rtol_collision(cases[ci]['objs'][cases[ci]['steps'][k]['obj']], cases[ci]['steps'][k]) and cases[ci]['steps'][k]['pts']]
+    tolres = {}
+    if tolreq:
+        reqs = []
+        for ci, k in tolreq:
+            c, st = cases[ci], cases[ci]['steps'][k]
+            o = c['objs'][st['obj']]
+            for variant in (0, 1):
+                reqs.append((3, [variant, o['a'], o['b'], st['lmin'], st['lmax'], c['fss'], st['pts']]))
+        out = run_model(2, reqs, nproc=4)
+        for j, key in enumerate(tolreq):
+            tolres[key] = (out[2 * j], out[2 * j + 1])
+    t3 = time.time()
     keys, samples = [], []
     search = []
-    for (ci, k, c), m in zip(flat, mres):
+    pending = []        # (check, kind, sig, history, detail, step) of implementation-side violations, confirmed standalone below
+    for (ci, k), m in zip(flat, mres):
         full = cases[ci]
-        hist = dict(full, more=full.get('more', [])[:k])      # the history up to and including this request (replayable)
-        st, rr = impl[ci]
-        chk.count('d=%d' % c['d']); chk.count('boundary=%s' % c['boundary']); chk.count('fkind=%d' % c['fs'][0])
-        chk.count('span=%d' % (c['lmax'] - c['lmin'])); chk.count('request#%d' % k)
-        if st != 'ok':
+        st = full['steps'][k]
+        o = full['objs'][st['obj']]
+        hist = dict(full, steps=full['steps'][:k + 1])      # the history up to and including this step (replayable)
+        status, rr = impl[ci]
+        d = full['d']
+        for key in ('d=%d' % d, 'boundary=%s' % o['boundary'], 'span=%d' % (st['lmax'] - st['lmin']), 'lmin=%d' % st['lmin'], 'step#%d' % k,
+                    'objects=%d' % len(full['objs']), 'step-on-object#%d' % st['obj'], 'outputs=%d' % len(full['fss']),
+                    'integrator=%s' % o.get('integrator'), 'reference=%s' % bool(full.get('ref')), 'evalpoints=%s' % (
+                        '0' if not st['pts'] else '1-9' if len(st['pts']) < 10 else '100-999' if len(st['pts']) < 1000 else '>=1000'),
+                    'pts-as-ndarray=%s' % st['pts_array'], 'levels-as-numpy-int=%s' % bool(st.get('np_levels')), 'box-as-python-lists=%s' % bool(o.get('ab_lists')), 'grid_eval=%s' % st['grid_eval'], 'probe-before-interpolation=%s' % st['probe_first'],
+                    'rtol_collision=%s' % rtol_collision(o, st),
+                    'far-box=%s' % any(abs(x) >= 100 for x in o['a'])):
+            chk.count(key)
+        for fs in full['fss']:
+            chk.count('fkind=%d' % fs[0])
+        if status != 'ok':
             if k == 0:
-                chk.violation('corr:C02/run', 'impl-exception', {'exc': rr[0] if rr else st}, full, dict(impl=str(rr)))
+                pending.append(('corr:C02/run', 'impl-exception', {'exc': rr[0] if rr else status}, full, dict(impl=str(rr)), None))
             continue
         r = rr[k]
+        npts = sum(len(comp[2]) for comp in r['comps'])
+        chk.count('component-grid points per step: %s' % ('<64' if npts < 64 else '64-199' if npts < 200 else '200-1023' if npts < 1024 else '1024-2047' if npts < 2048 else '>=2048'))
+        big = max([len(comp[2]) for comp in r['comps']] or [0])
+        chk.count('largest component grid: %s' % ('<64' if big < 64 else '64-199' if big < 200 else '200-1023' if big < 1024 else '>=1024'))
         if sx.is_err(m) or isinstance(m, tuple):
             chk.violation('corr:C02/run', 'model-rejects', {}, hist, dict(model=str(m)), failing_input=False)
             continue
         chk.traces += 1
-        why = oracle(c, r)
+        why = oracle(full, st, r)
         if why:
-            chk.violation('oracle:std_combi', 'property-predicate', {'boundary': c['boundary'], 'fkind': c['fs'][0], 'request': min(k, 1)}, hist, dict(why=why, request=[c['lmin'], c['lmax']]))
-        if m[0] != 1:
+            pending.append(('oracle:std_combi', 'property-predicate', sig_of(full, k, why[0]), hist,
+                            dict(why=why[1], clause=why[0], request=[st['lmin'], st['lmax']]), k))
+        if m[0] != 1 and st['lmax'] >= st['lmin']:
             chk.violation('checker:std_eq_adaptive', 'closed-form-not-ie', {}, hist, dict(note='model closed form differs from adaptive init'),
                           failing_input=False)
-        diffs = compare(c, r, m)
-        if diffs and not why:
-            # a scheme/points mismatch against the requested (lmin, lmax) is itself a property violation when the union of the
-            # component grids is not the sparse grid of the requested index set: evaluate that clause on the implementation
-            why2 = oracle_union(c, r)
-            if why2:
-                chk.violation('oracle:std_combi_union', 'property-predicate', {'boundary': c['boundary'], 'fkind': c['fs'][0], 'request': min(k, 1)}, hist,
-                              dict(why=why2, request=[c['lmin'], c['lmax']], differs=diffs))
+        diffs = compare(full, st, r, m)
+        for key, av in r['attrs'].items():
+            dim, lev = map(int, key.split(':'))
+            ma = areq.get((o['boundary'], o['a'][dim], o['b'][dim], lev))
+            chk.count('1D grid objects compared')
+            if ma is None or sx.is_err(ma) or isinstance(ma, tuple):
+                diffs.append('1D grid attributes (model rejects)')
+                continue
+            if av[:4] != ma[:4] or av[7] != ma[0] or av[4] is None or not close(qf(ma[4]), av[4], 0):
+                diffs.append('1D grid attributes (num_points, num_points_with_boundary, lowerBorder, upperBorder, spacing)')
+            if [qf(x) for x in ma[5]] != av[5]:
+                diffs.append('1D grid coords')
+            if len(ma[6]) != len(av[6]) or any(not close(qf(x), y, 0) for x, y in zip(ma[6], av[6])):
+                diffs.append('1D grid weights')
+        if (ci, k) in tolres:
+            # which boundary test does the code use?  the interpolated values must be those of one of the tolerant models
+            def same(mv):
+                return (not sx.is_err(mv)) and not isinstance(mv, tuple) and len(mv) == len(full['fss']) and all(
+                    len(col) == len(r['vals']) and all(close(qf(x), v[q]) for x, v in zip(col, r['vals'])) for q, col in enumerate(mv))
+            m_np, m_dom = tolres[(ci, k)]
+            s_np, s_dom = same(m_np), same(m_dom)
+            variant = ('both models (indistinguishable on this step)' if s_np and s_dom else 'np.isclose (current code)' if s_np
+                       else 'domain-relative / exact (repaired code)' if s_dom else 'neither')
+            chk.count('boundary test observed on rtol_collision steps: ' + variant)
+            if variant == 'neither':
+                diffs.append('interpolated values (neither the np.isclose model nor the domain-relative model of the boundary test)')
+        diffs = sorted(set(diffs))
+        if diffs and (not why or any('neither the np.isclose' in x for x in diffs)):
+            search.append((full, k))
+            chk.violation('corr:C02/' + '+'.join(diffs), 'model-differs', dict(sig_of(full, k), observable=','.join(diffs)), hist,
+                          dict(differs=diffs, impl_integral=str(r['integral']), model_integral=str([qf(x) for x in m[4]]),
+                               impl_vals=str(r['vals'])[:400], model_vals=str([[qf(x) for x in mv] for mv in m[3]])[:400],
+                               impl_total_points=r['total_points'], model_total_points=m[5]), failing_input=False)
+        if d >= 2 and st['lmax'] > st['lmin']:
+            keys.append((d, st['lmin'], st['lmax'], o['boundary'], str(o['a']), str(o['b']), str(full['fss']), k, st['obj']))
+        if len(samples) < 3 and d >= 2 and st['lmax'] > st['lmin'] and k > 0:
+            samples.append(dict(d=d, history=[[s['obj'], s['lmin'], s['lmax']] for s in full['steps'][:k + 1]],
+                                objects=[dict(a=[str(x) for x in ob['a']], b=[str(x) for x in ob['b']], boundary=ob['boundary']) for ob in full['objs']],
+                                f=str(full['fss']), integral=str(r['integral']), sparse_grid_points=r['nodal_all'], scheme=str(r['scheme'])))
+    # every worker process runs many cases one after the other: a violation may be due to state an EARLIER case left behind in
+    # the process (class-level caches ...). Re-run each violating history alone in a fresh process: only a history that fails on its
+    # own is a replayable failing input; the others are reported too, marked as needing the process history.
+    import json as _json
+    pending.sort(key=lambda v: len(_json.dumps(v[3], default=str)))
+    confirmed_sigs = set()
+    tries = {}
+    for check, kind, sig, hist, detail, k in pending:
+        sk = (kind, str(sorted(sig.items())))
+        alone = None
+        if sk not in confirmed_sigs and tries.get(sk, 0) < 3 and sum(tries.values()) < 30:
+            tries[sk] = tries.get(sk, 0) + 1
+            status, rr = run_impl(impl_run, [hist], limit=300)[0]
+            if kind == 'impl-exception':
+                alone = status != 'ok'
             else:
-                search.append(c)
-                chk.violation('corr:C02/' + '+'.join(diffs), 'model-differs', {'observable': ','.join(diffs)}, hist,
-                              dict(differs=diffs, impl_integral=str(r['integral']), model_integral=str(sx.q(m[4])),
-                                   impl_vals=str(r['vals'])[:400], model_vals=str([sx.q(x) for x in m[3]])[:400]), failing_input=False)
-        if c['d'] >= 2 and c['lmax'] > c['lmin']:
-            keys.append((c['d'], c['lmin'], c['lmax'], c['boundary'], str(c['a']), str(c['b']), str(c['fs']), k))
-        if len(samples) < 3 and c['d'] >= 2 and c['lmax'] > c['lmin'] and k > 0:
-            samples.append(dict(d=c['d'], history=[[full['lmin'], full['lmax']]] + full['more'][:k], boundary=c['boundary'], a=[str(x) for x in c['a']],
-                                b=[str(x) for x in c['b']], f=str(c['fs']), integral=str(r['integral']),
-                                sparse_grid_points=len(r['nodal'] or []), scheme=str(r['scheme'])))
+                alone = status != 'ok' or (k < len(rr) and oracle(hist, hist['steps'][k], rr[k]) is not None)
+            if alone:
+                confirmed_sigs.add(sk)
+        if alone is False:
+            detail = dict(detail, standalone='does NOT fail when the history runs alone in a fresh process: state left behind by earlier '
+                                             'cases of the same worker process (class-level / module-level cache) is involved')
+            chk.violation(check, kind + '/process-state', sig, hist, detail, failing_input=False)
+        else:
+            chk.violation(check, kind, sig, hist, dict(detail, standalone='confirmed in a fresh process' if alone else 'not re-run'))
+    t4 = time.time()
     # failing-input search: for configurations where only the correspondence broke, look for a hierarchical hat function
-    # (analytic interpolant/integral known) on the SAME configuration on which the implementation violates the property
+    # (analytic interpolant/integral known) or a positive polynomial on the SAME history on which the implementation violates the property
     if search:
         rng = random.Random(chk.seed)
         extra = []
-        for c in search[:20]:
-            for _ in range(6):
-                j = [rng.randrange(1, c['lmin'] + 1) if rng.random() < 0.5 else rng.randrange(1, c['lmax'] + 1) for _ in range(c['d'])]
-                if not in_index_set(c, j):
-                    j = [c['lmin']] * c['d']
-                i = [rng.randrange(0, 2 ** (jd - 1)) * 2 + 1 for jd in j]
-                extra.append(dict(c, fs=[1, j, i], grid_eval=False))
+        for full, k in search[:20]:
+            st = full['steps'][k]
+            o = full['objs'][st['obj']]
+            d = full['d']
+            for t in range(6):
+                if t == 0:
+                    fs = [0, [Fr(1)] * d, [Fr(3)] * d]
+                else:
+                    j = [rng.randrange(1, st['lmin'] + 1) if rng.random() < 0.5 else rng.randrange(1, max(st['lmax'], 1) + 1) for _ in range(d)]
+                    if not in_index_set(st, d, j):
+                        j = [max(st['lmin'], 1)] * d
+                    fs = [1, j, [rng.randrange(0, 2 ** (jd - 1)) * 2 + 1 for jd in j]]
+                steps = [dict(s, grid_eval=False, want_pw=False) for s in full['steps'][:k + 1]]
+                steps[-1] = dict(steps[-1], pts=gen_pts(rng, d, o['a'], o['b'], 12), no_cap=True)
+                extra.append((dict(full, fss=[fs], steps=steps), k))
         found = 0
-        for c2, (st, r) in zip(extra, run_impl(impl_run, extra, limit=300)):
-            if st == 'ok':
-                why = oracle(c2, r)
+        for (c2, k), (status, rr) in zip(extra, run_impl(impl_run, [e[0] for e in extra], limit=300)):
+            if status == 'ok':
+                why = oracle(c2, c2['steps'][k], rr[k])
                 if why:
                     found += 1
-                    chk.violation('oracle:std_combi', 'property-predicate', {'boundary': c2['boundary'], 'fkind': 1}, c2, dict(why=why, found_by='failing-input search'))
+                    chk.violation('oracle:std_combi', 'property-predicate', sig_of(c2, k, why[0]), c2,
+                                  dict(why=why[1], clause=why[0], found_by='failing-input search'))
         chk.extra['failing_input_search'] = dict(configs=len(search), cases_tried=len(extra), failing_inputs_found=found)
+    _c02_gen.finish(chk, gen_info, gen_problem)
+    chk.extra['phase_seconds'] = dict(coq=round(t1 - t0, 1), implementation=round(t2 - t1, 1), model=round(t3 - t2, 1),
+                                      compare_and_oracle=round(t4 - t3, 1), search=round(time.time() - t4, 1))
+    chk.extra['envelope'] = ENVELOPE
     chk.record_cases(len(cases), keys,
-                     'random (d 1..4, 1<=lmin<=lmax<=lmin+3, dyadic box, boundary on/off, f in {polynomial, hierarchical hat, nodal unit}, '
-                     '6 dyadic evaluation points, point-wise and tensor-grid requests); non-trivial = d>=2 and lmax>lmin; distinct by all parameters',
+                     'histories of 1-3 requests on 1-2 (StandardCombi, TrapezoidalGrid, Integration) triples in one process: d 1..5, '
+                     '0<=lmin, lmax-lmin in -1..3, dyadic boxes incl. boxes far from the origin / tiny boxes, boundary on/off, both integrators, '
+                     'scalar and vector-valued f in {polynomial, hierarchical/nodal hat, nodal unit}, reference solution on/off, 0/6/205/1031 '
+                     'evaluation points as tuples or ndarray, point-wise and tensor-grid requests, both observation orders; + 6 corpus + 7 large-size '
+                     'cases; non-trivial = d>=2 and lmax>lmin; distinct by all parameters',
                      samples)
+
+
+ENVELOPE = {
+    'quantified axes (property text + anchored code)': {
+        'dimension': '1..5 generated (5 only with small levels)',
+        'lmin, lmax': '1<=lmin<=lmax (property); also lmin=0 and lmax<lmin (empty scheme) - outside the property, run and agree with the model',
+        'box [a,b]': 'dyadic bounds, anisotropic widths 1/2..4, negative/positive, boxes far from the origin (|a| = 100, 1000, 2^20) and tiny '
+                     'boxes next to 1; EXCLUDED: a_k >= b_k (linspace gives a non-increasing mesh: scipy interpn raises ValueError; integral is 0 or negative)',
+        'boundary': 'on / off (modified_basis=True belongs to C08, not generated here)',
+        'function': 'polynomial (not in the space), hierarchical / nodal hats in and outside the index set incl. boundary hats, nodal unit functions; '
+                    'output_length 1 and 2',
+        'interpolation request': 'point-wise (list of tuples / ndarray), tensor grid (interpolate_grid), 0 / 6 / 205 / 1031 points, points on the '
+                                 'boundary of the box; EXCLUDED: points outside the box (scipy interpn raises ValueError: out of bounds)',
+        'argument types': 'a, b as numpy arrays or Python lists; lmin, lmax as int or numpy.int64; evaluation points as list of tuples or 2D ndarray; '
+                          'EXCLUDED: float levels (range() raises TypeError)',
+        'constructor options': "TrapezoidalGrid(integrator=None|'old'), Integration(reference_solution=None|given), StandardCombi(print_output=False); "
+                               'norm / log levels do not reach the anchored code',
+        'histories': '1-3 perform_operation requests with different (lmin,lmax) on ONE object; two object triples (other boundary flag / other box) '
+                     'interleaved in one process; observation order (component-grid probes before/after interpolation); repeated identical requests',
+        'sizes': 'component grids up to 8193 (1D) and 2145 (2D) points, combination up to ~12000 points, 1031 evaluation points',
+    }
+}
 
 
 def replay(chk, rep):
     c = rep['case']
+
     def fr(v):
         if isinstance(v, str):
             return Fr(v)
         if isinstance(v, list):
             return [fr(x) for x in v]
         return v
-    for k in ('a', 'b', 'pts'):
-        c[k] = fr(c[k])
-    c['fs'] = [c['fs'][0]] + [fr(x) if c['fs'][0] != 1 else x for x in c['fs'][1:]]
-    c.setdefault('more', [])
-    st, rr = run_impl(impl_run, [c])[0]
-    print('impl:', st, str(rr)[:1500])
-    if st != 'ok':
+    for o in c['objs']:
+        o['a'] = fr(o['a']); o['b'] = fr(o['b'])
+    for st in c['steps']:
+        st['pts'] = fr(st['pts'])
+    c['fss'] = [[fs[0]] + [fr(x) if fs[0] != 1 else x for x in fs[1:]] for fs in c['fss']]
+    status, rr = run_impl(impl_run, [c])[0]
+    print('impl:', status, str(rr)[:1500])
+    if status != 'ok':
         return 1
     bad = 0
-    for cr, r in zip(requests(c), rr):
-        m = run_model(2, [to_model(cr)])[0]
-        why = oracle(cr, r) or oracle_union(cr, r)
-        print('request', [cr['lmin'], cr['lmax']], 'property predicate:', why or 'holds', '; model differs in:', compare(cr, r, m))
+    for k, (st, r) in enumerate(zip(c['steps'], rr)):
+        m = run_model(2, [to_model(c, st)])[0]
+        why = oracle(c, st, r)
+        print('step', k, 'object', st['obj'], 'request', [st['lmin'], st['lmax']], 'property predicate:', why or 'holds',
+              '; model differs in:', compare(c, st, r, m))
         bad += bool(why)
     return 1 if bad else 0
